@@ -85,6 +85,8 @@ def execute_run(plan: dict, schedule: list | None = None, timeout_s: int = 900) 
         violations += v8
         stats["c08_agents_in_memo"] = n_agents
         violations += oracles.oracle_c04_exact(h)
+        if plan.get("profile") in ("C03", "C04", "C06", "C08"):
+            violations += oracles.oracle_no_result(h, plan["profile"])
         if plan.get("profile") == "C04" or plan.get("c04_stats"):
             from dsim import stats as st
 
